@@ -392,6 +392,53 @@ def rule_orderins(ctx) -> None:
                   "then depends on listing order" + (f" (definition at L{bad[0].node.lineno})" if bad else ""),
                   ctx.path_witness(fn, bad[1]) if bad else None)
     ctx.floor("C18.ORDERINS", "truncations of the observed item list", n_checked, 1)
+    # the (-score, id) key is a total order only over scores that compare: a NaN score must be gone *before* the sort, or the
+    # finite items around it come out in an order that depends on how the items were listed
+    def nan_free(e: ast.AST, at, depth: int = 0) -> bool:
+        if isinstance(e, ast.Call) and dotted(e.func) in ("list", "sorted", "tuple") and e.args:
+            return nan_free(e.args[0], at, depth + 1)
+        if isinstance(e, ast.Subscript) and isinstance(e.slice, ast.Slice):
+            return nan_free(e.value, at, depth + 1)
+        if isinstance(e, (ast.ListComp, ast.GeneratorExp)):
+            for g in e.generators:
+                # the score component of the element: second item of a tuple target, or `t[1]`
+                t = g.target
+                score = {src(t.elts[1])} if isinstance(t, ast.Tuple) and len(t.elts) == 2 else {f"{src(t)}[1]"}
+
+                def on_score(x) -> bool:
+                    return isinstance(x, ast.Compare) and len(x.ops) == 1 and isinstance(x.ops[0], (ast.GtE, ast.Gt, ast.LtE, ast.Lt, ast.Eq)) and (src(x.left) in score or src(x.comparators[0]) in score)
+
+                for c in g.ifs:
+                    if on_score(c):
+                        return True  # any positive comparison is false for NaN
+                    if isinstance(c, ast.Call) and call_tail(c) == "isfinite" and c.args and src(c.args[0]) in score:
+                        return True
+                    if isinstance(c, ast.BoolOp) and isinstance(c.op, ast.And) and any(on_score(v) for v in c.values):
+                        return True
+            if len(e.generators) == 1:
+                return nan_free(e.generators[0].iter, at, depth + 1)
+            return False
+        if isinstance(e, ast.Name) and depth < 5:
+            ds = [d for d in rd.reaching(e.id, at) if d.kind != "mutate"]
+            return bool(ds) and all(d.kind == "assign" and d.value is not None and nan_free(d.value, d.node, depth + 1) for d in ds)
+        return False
+
+    n_sorts = 0
+    for m in sorted(cfg.nodes, key=lambda x: x.id):
+        for c in node_calls(m):
+            operand = None
+            if isinstance(c.func, ast.Attribute) and c.func.attr == "sort" and _total_score_id_key(kwarg(c, "key")):
+                operand = c.func.value
+            elif dotted(c.func) == "sorted" and c.args and _total_score_id_key(kwarg(c, "key")):
+                operand = c.args[0]
+            if operand is None or fn.params[2] not in rd.slice([operand], m).params:
+                continue
+            n_sorts += 1
+            ctx.check(nan_free(operand, m), "C18.ORDERINS", ctx.okey(f"{fn.qual}/scores-comparable-before-sort"), fn.loc(c),
+                      "the threshold filter (`score >= threshold`, false for NaN) runs before the (-score, id) sort, so the key is a total order",
+                      f"`{src(c)[:50]}` sorts items that may still carry a NaN score (the `>= threshold` filter comes later): (-nan, id) compares false both ways, so the finite items are left "
+                      "mis-ordered depending on where the NaN item was listed, and the top-k / pair-cap prefix taken afterwards is no longer the true top-k")
+    ctx.floor("C18.ORDERINS", "score sorts of the observed item list", n_sorts, 1)
     # threshold filter precedes
     filt = [x for x in walk_no_defs(fn.node) if isinstance(x, (ast.ListComp, ast.GeneratorExp)) and any(
         isinstance(c, ast.Compare) and isinstance(c.ops[0], ast.GtE) and "threshold" in src(c.comparators[0]) for g in x.generators for c in g.ifs)]
